@@ -28,11 +28,16 @@ MinOf(S) == CHOOSE m \in S : \A x \in S : m <= x
 Expected(r, V) == MinOf({Pos[r][c] : c \in V})
 \* an illegal equed value makes the R / C tests meaningless (they are only made for a legal flag)
 Compatible(r, V) == ~(r = "gssvx" /\ "equed" \in V /\ (V \cap {"Rneg", "Cneg"}) # {})
-Cases == UNION { { <<r, V>> : V \in {S \in SUBSET Conds(r) : Cardinality(S) \in {1, 2} /\ Compatible(r, S)} } : r \in Routines }
+BaseCases == UNION { { <<r, V>> : V \in {S \in SUBSET Conds(r) : Cardinality(S) \in {1, 2} /\ Compatible(r, S)} } : r \in Routines }
+\* legal special values of the OTHER arguments must not change the outcome: the same violations with zero right-hand
+\* sides (B, X with no columns), where a routine may be tempted to return before it has tested its arguments
+CtxFlags == {"nrhs0"}
+HasRhs == {"gssv", "gssvx", "gstrs", "gsrfs"}
+Cases == BaseCases \cup { <<c[1], c[2] \cup {"nrhs0"}>> : c \in {b \in BaseCases : b[1] \in HasRhs /\ "Bncol" \notin b[2] /\ "Xncol" \notin b[2]} }
 
 SeqSet(q) == {q[i] : i \in 1..Len(q)}
 ArgOK(rec) ==
-  LET r == rec.routine  V == SeqSet(rec.viol)  e == Expected(r, V) IN
+  LET r == rec.routine  V == SeqSet(rec.viol) \ CtxFlags  e == Expected(r, V) IN
   /\ V \subseteq Conds(r) /\ V # {}
   /\ (r # "gemv" => rec.info = 0 - e)           \* info = -i for the first offender
   /\ rec.xcount = 1 /\ rec.xpos = e              \* reported once through the error handler
